@@ -333,6 +333,148 @@ func freeRun(r *hx.Run, rnd *hx.Rand, idx int, maxUsers int) {
 	srv.close()
 }
 
+// churnRun is many short use periods of one or two digests: users fetch, read, close and
+// fetch again, so that closes of the last reference keep racing with new fetches of the same
+// layer. The hook at the start of an rc's cleanup callback yields, which widens exactly the
+// window between "count reached zero" and "key forgotten" (harmless when, as in the code,
+// that window is inside the rc's critical section).
+func churnRun(r *hx.Run, rnd *hx.Rand, idx int) {
+	nl := 1 + rnd.Intn(2)
+	var layers []*layer
+	for i := 0; i < nl; i++ {
+		layers = append(layers, mkLayer(i, true, 50+rnd.Intn(3000)))
+	}
+	srv := newServer(layers)
+	y := &yielder{seed: rnd.U64()}
+	var clock atomic.Int64
+	rt := &stampRT{inner: srv.ts.Client().Transport, clock: &clock, reqs: map[int][]int64{}}
+	client := &http.Client{Transport: rt}
+	root, err := os.MkdirTemp("", "c10-churn-")
+	if err != nil {
+		r.Fail("", "cannot-create-arena "+err.Error())
+		return
+	}
+	defer os.RemoveAll(root)
+	arena := libindex.NewRemoteFetchArena(client, root)
+	verifhook.Install(func(site, key string) {
+		switch {
+		case site == "c10.done":
+			for i := 0; i < 6; i++ {
+				runtime.Gosched()
+			}
+			y.maybe()
+		case site == "c10.flight.end":
+		case strings.HasPrefix(site, "c10."):
+			y.maybe()
+		}
+	})
+	defer verifhook.Install(nil)
+	nu := 4 + rnd.Intn(21)
+	rounds := 4 + rnd.Intn(9)
+	label := fmt.Sprintf("churn-run#%d users=%d rounds=%d layers=%d gomaxprocs=%d", idx, nu, rounds, nl, runtime.GOMAXPROCS(0))
+	type hold struct {
+		user, k int
+		a, b    int64
+	}
+	var hmu sync.Mutex
+	var holds []hold
+	var wg sync.WaitGroup
+	for u := 0; u < nu; u++ {
+		wg.Add(1)
+		go func(u int) {
+			defer wg.Done()
+			ctx := context.Background()
+			for round := 0; round < rounds; round++ {
+				want := []int{(u + round) % nl}
+				if nl > 1 && (u+round)%3 == 0 {
+					want = []int{0, 1}
+				}
+				descs := make([]claircore.LayerDescription, len(want))
+				for i, k := range want {
+					descs[i] = srv.desc(k, false)
+				}
+				p := arena.Realizer(ctx).(*libindex.FetchProxy)
+				var ls []claircore.Layer
+				var err error
+				if hx.Guard(func() string { ls, err = p.RealizeDescriptions(ctx, descs); return "" }) == "panic" || err != nil {
+					r.Fail("", fmt.Sprintf("%s user=%d round=%d RealizeDescriptions-failed err=%v", label, u, round, err))
+					return
+				}
+				a := clock.Add(1)
+				for i, k := range want {
+					r.Case(fmt.Sprintf("churn read user=%d layer=%d", u, k), true)
+					if msg := readBack(&ls[i], layers[k]); msg != "" {
+						r.Fail("", fmt.Sprintf("%s user=%d cannot-read-held-layer=%d round=%d: %s", label, u, k, round, msg))
+					}
+				}
+				for i := 0; i < (u+round)%4; i++ {
+					y.maybe()
+				}
+				b := clock.Add(1)
+				var cerr error
+				if hx.Guard(func() string { cerr = p.Close(); return "" }) == "panic" || cerr != nil {
+					r.Fail("", fmt.Sprintf("%s user=%d round=%d Close-failed err=%v", label, u, round, cerr))
+				}
+				hmu.Lock()
+				for _, k := range want {
+					holds = append(holds, hold{u, k, a, b})
+				}
+				hmu.Unlock()
+				y.maybe()
+			}
+		}(u)
+	}
+	done := make(chan struct{})
+	go func() { wg.Wait(); close(done) }()
+	select {
+	case <-done:
+	case <-time.After(60 * time.Second):
+		r.Fail("", label+" users-stuck (deadlock or lost wake-up)")
+		return
+	}
+	rt.mu.Lock()
+	total := 0
+	for _, h := range holds {
+		for _, s := range rt.reqs[h.k] {
+			if s > h.a && s < h.b {
+				r.Fail("", fmt.Sprintf("%s download-while-held layer=%d holder=user%d held=(%d,%d) request-at=%d", label, h.k, h.user, h.a, h.b, s))
+			}
+		}
+	}
+	for _, ss := range rt.reqs {
+		total += len(ss)
+	}
+	rt.mu.Unlock()
+	r.Count("free:churn-runs")
+	r.Count("free:churn-use-periods=" + bucket(len(holds)/10) + "0")
+	if total < len(holds) {
+		r.Count("free:churn-runs-with-shared-downloads")
+	}
+	for deadline := time.Now().Add(10 * time.Second); flightGoroutines() != 0; {
+		if time.Now().After(deadline) {
+			r.Fail("", label+" a-flight-is-still-running-10s-after-every-user-returned")
+			break
+		}
+		time.Sleep(50 * time.Microsecond)
+	}
+	fdsBeforeGC := arenaFDs(root)
+	runFinalizers()
+	for _, key := range arena.ArenaKeysForVerif() {
+		c, open := libindex.RcStateForVerif(arena.ArenaEntryForVerif(key))
+		r.Fail("", fmt.Sprintf("%s arena-not-empty-after-all-closed %s count=%d open=%v", label, key, c, open))
+	}
+	if n := arenaFDs(root); n != 0 {
+		r.Fail("", fmt.Sprintf("%s open-descriptors-into-arena-after-all-closed n=%d", label, n))
+	} else if fdsBeforeGC != 0 {
+		r.Fail("", fmt.Sprintf("%s descriptors-into-arena-released-only-by-the-garbage-collector before-gc=%d", label, fdsBeforeGC))
+	}
+	if n := dirEntries(root); n != 0 {
+		r.Fail("", fmt.Sprintf("%s files-left-in-arena-dir n=%d", label, n))
+	}
+	client.CloseIdleConnections()
+	srv.close()
+}
+
 func freeRuns(r *hx.Run, cfg hx.Config, rnd *hx.Rand) {
 	n := cfg.N(80, 2500)
 	base := runtime.NumGoroutine()
@@ -343,7 +485,11 @@ func freeRuns(r *hx.Run, cfg hx.Config, rnd *hx.Rand) {
 		if i%6 == 5 {
 			maxUsers = 64
 		}
-		freeRun(r, rnd, i, maxUsers)
+		if i%4 == 3 {
+			churnRun(r, rnd, i)
+		} else {
+			freeRun(r, rnd, i, maxUsers)
+		}
 		runtime.GOMAXPROCS(old)
 		if i%10 == 9 {
 			if g := settleGoroutines(base, 3); g > base+3 {
